@@ -220,8 +220,9 @@ def main(argv):
     jobs = a.jobs or int(os.environ.get("VERIF_JOBS", "0") or 0) or (8 if a.tier == "quick" else 6)
     jobs = max(1, min(jobs, len(specs)))
     slot_q = queue.Queue()
+    base = int(os.environ.get("VERIF_SLOT_BASE", "0") or 0)  # lets two runs use disjoint target directories
     for i in range(jobs):
-        slot_q.put(i)
+        slot_q.put(base + i)
     t0 = time.time()
     results = []
     # harnesses that are allowed more than the default memory run alone, after the pool
